@@ -61,3 +61,18 @@ Definition html2stan (html : text) : h2s_result :=
        | Some (STag _ a kids) => H2Ok (STag [] a kids)       (* stan.tagName = '' *)
        | _ => H2ParseError
        end.
+
+(* html2stan with the control class as it was before the repair cc2b510 (FORM FEED exempted): kept for the
+   _old_refuted witness only *)
+Definition old_control : list N := filter (fun c => negb (c =? 12)) re_control.
+Definition neutralise_old (h : text) : text :=
+  flat_map (fun c => if memN c old_control
+                     then match assoc_N c re_control_repl with Some r => r | None => [c] end
+                     else [c]) h.
+Definition html2stan_old (html : text) : h2s_result :=
+  let h := neutralise_old html in
+  if starts xml_decl h then H2Document
+  else match xml_load (wrap h) with
+       | Some (STag _ a kids) => H2Ok (STag [] a kids)
+       | _ => H2ParseError
+       end.
